@@ -479,5 +479,5 @@ MANIFEST = {
              "can be evaluated once per process (import-time contexts, memoisation, class/module storage). This decides the 'same process' and 'across restarts' quantifier "
              "structurally (a per-call CSPRNG draw cannot repeat by construction); it does not measure randomness.",
     "note": "Trusted: `secrets` is a CSPRNG; call resolution by names/imports/MRO (unresolved calls counted in evidence). Frozen table of 24 secret sites (floor).",
-    "technique": "static analysis: RNG-taint closure on the resolved call graph + import-time-context and shared-state dataflow rules",
+    "technique": "static analysis: RNG-taint closure on the resolved call graph + import-time-context and shared-state dataflow rules, config-redraws on guarded paths (a re-configurable object stores its secret on every path)",
 }
